@@ -273,7 +273,7 @@ def ex_res(case):
 # ------------------------------------------------------------------------------ Merkle
 def merkle_strategy(tier):
     keys = st.sampled_from([f"k{i}" for i in range(9)] + ["a0", "zz", "", "k10"])
-    val = st.integers(0, 2) | st.sampled_from(["x", "y"])
+    val = st.integers(0, 2) | st.sampled_from(["x", "y"]) | st.none()      # values are Any: None (e.g. a tombstone marker) is a value like any other
     m = st.dictionaries(keys, val, max_size=9)
     edits = st.lists(st.tuples(st.sampled_from(["set", "delA", "delB", "addB"]), keys, val), max_size=4)
     return st.fixed_dictionaries({"A": m, "edits": edits, "incremental": st.booleans()})
@@ -358,6 +358,83 @@ def ex_collect(case):
     return r
 
 
+# ------------------------------------------------------------------------------ merge chains
+def chain_strategy(tier):
+    def mk(t):
+        return st.fixed_dictionaries({
+            "stream": items_strategy(t), "cuts": st.lists(st.integers(0, 200), min_size=2, max_size=3),
+            "extra": items_strategy(t).map(lambda l: l[:6]), "seed": st.sampled_from([None, 0, 7]),
+            "kind": st.sampled_from(["bloom", "cms", "hll"]), "order": st.sampled_from(["acc-first", "into-first"]),
+            "mutate": st.sampled_from(["operand", "accumulator", "clear-operand", "none"]),
+        })
+    return mk(tier)
+
+
+def ex_chain(case):
+    """merge() over a chain of 3-4 parts (empty parts and an empty accumulator included), then a later mutation of one side:
+    the accumulator must equal the sketch of the concatenation of what was merged into it, and every operand must still equal
+    the sketch of its own part (a merge result is a value: it may not share state with its inputs)."""
+    from happysimulator.sketching.bloom_filter import BloomFilter
+    from happysimulator.sketching.count_min_sketch import CountMinSketch
+    from happysimulator.sketching.hyperloglog import HyperLogLog
+    r = Result()
+    kind = case["kind"]
+    if kind == "bloom":
+        mk = lambda: BloomFilter(size_bits=16, num_hashes=2, seed=case["seed"])
+        obs = lambda sk, pr: (tuple(sk.contains(x) for x in pr), getattr(sk, "_bits", None) and list(getattr(sk, "_bits")))
+    elif kind == "cms":
+        mk = lambda: CountMinSketch(width=4, depth=2, seed=case["seed"])
+        obs = lambda sk, pr: (tuple(sk.estimate(x) for x in pr), sk.item_count, [list(row) for row in getattr(sk, "_counters", [])])
+    else:
+        mk = lambda: HyperLogLog(precision=4, seed=case["seed"])
+        obs = lambda sk, pr: (sk.cardinality(), list(getattr(sk, "_registers", []) or []))
+    s = [(item(x), w) for x, w in case["stream"]]
+    extra = [(item(x), max(1, w)) for x, w in case["extra"]]
+    cuts = sorted(c % (len(s) + 1) for c in case["cuts"])
+    parts = [s[a:b] for a, b in zip([0] + cuts, cuts + [len(s)])]
+    probes = [x for x, _ in s] + [x for x, _ in extra] + PROBES
+
+    def build(items):
+        sk = mk()
+        for x, w in items:
+            sk.add(x, w)
+        return sk
+    ops = [build(p_) for p_ in parts]
+    if case["order"] == "acc-first":
+        acc, merged = mk(), list(range(len(parts)))          # fresh (empty) accumulator, everything merged into it
+    else:
+        acc, merged = ops[0], list(range(1, len(parts)))      # first operand is the accumulator
+    for i in merged:
+        acc.merge(ops[i])
+    want_acc = [it for i in ([] if case["order"] == "acc-first" else [0]) + merged for it in parts[i]]
+    mut = case["mutate"]
+    victim = merged[0] if merged else None
+    want_parts = {i: list(parts[i]) for i in merged}
+    if mut == "operand" and victim is not None:
+        for x, w in extra:
+            ops[victim].add(x, w)
+        want_parts[victim] = want_parts[victim] + extra
+    elif mut == "accumulator":
+        for x, w in extra:
+            acc.add(x, w)
+        want_acc = want_acc + extra
+    elif mut == "clear-operand" and victim is not None and hasattr(ops[victim], "clear"):
+        ops[victim].clear()
+        want_parts[victim] = []
+    if obs(acc, probes) != obs(build(want_acc), probes):
+        r.add(f"{P}/chain/{kind}/merge-chain-differs-from-concatenation",
+              f"order={case['order']} mutate={mut} parts={[len(p_) for p_ in parts]}")
+    for i in merged:
+        if obs(ops[i], probes) != obs(build(want_parts[i]), probes):
+            r.add(f"{P}/chain/{kind}/merge-operand-changed", f"operand {i} no longer equals the sketch of its own stream "
+                                                           f"(order={case['order']} mutate={mut} parts={[len(p_) for p_ in parts]})")
+            break
+    empties = sum(1 for p_ in parts if not p_)
+    r.nontrivial = len(s) >= 3 and mut != "none"
+    r.labels += [kind, "order:" + case["order"], "mutate:" + mut] + (["has-empty-part"] if empties else [])
+    return r
+
+
 OBLIGATIONS = [
     Obligation("bloom", stream_case({"bits": st.sampled_from([1, 8, 16, 64, 65, 200]), "nh": st.sampled_from([None, 1, 2, 3])}),
                ex_bloom, {"quick": 1200, "thorough": 60000},
@@ -376,6 +453,11 @@ OBLIGATIONS = [
     Obligation("reservoir", stream_case({"k": st.sampled_from([1, 2, 3, 10])}),
                ex_res, {"quick": 800, "thorough": 40000},
                "streams into ReservoirSampler(k), checked after every add; non-trivial = stream longer than k"),
+    Obligation("chain", chain_strategy, ex_chain, {"quick": 1500, "thorough": 60000},
+               "Bloom / Count-Min / HyperLogLog: a stream cut into 3-4 parts (empty parts included) merged in a chain into a fresh empty "
+               "accumulator or into the first part, followed by a mutation of an operand, of the accumulator, or clear() of an operand; the "
+               "accumulator must equal the sketch of the concatenation and every operand the sketch of its own part (no shared state); "
+               "non-trivial = stream of >= 3 items and a mutation after the merges"),
     Obligation("merkle", merkle_strategy, ex_merkle, {"quick": 2500, "thorough": 120000},
                "pairs of small str->value maps derived from one another by generated edits (equal, disjoint sizes, one empty), built in bulk or incrementally, diff in both directions; non-trivial = maps differ and have different sizes"),
     Obligation("collectors", stream_case({"w": st.sampled_from([2, 8]), "d": st.sampled_from([1, 3]), "k": st.integers(1, 4)}),
